@@ -1,8 +1,240 @@
 (* Properties_C16.v -- property theorems only.  C16: values survive the trip through the Lua
-   datamodel; the system variables cannot be assigned by chart code. *)
+   datamodel; the system variables cannot be assigned by chart code.
+
+   The Lua VM and the C++/Lua number conversions are outside the model: every theorem that needs them
+   quantifies over them (F, s2d = strTo<double>, l2d = (double)long, d2s = toStr<double>,
+   leval = luaEval of an INTERPRETED atom, lexec = the chunk "<location>= __tmpAssign",
+   Fst = which doubles are classified stable) and assumes [oracle_ok] resp. the named lua_* premise.
+   [lm_variant] carries the four points at which the pinned code deviates; [variant_ok vr v] is true
+   for every value when all switches are off (the repaired code) and spells out the restriction
+   otherwise (no empty string, arrays shorter than 10, integers within +-2^53, no empty map key). *)
 From V Require Import Base GenLuaProtected LuaMarshal LuaMarshalLemmas.
 
+(* U (all values, induction on the value type): a value of the property's class, presented as Data
+   (event payload, Data handed to assign), is turned by getDataAsLua into a Lua value that
+   getLuaAsData reads back as the same Data.  data_eqb is the oracle of the correspondence check. *)
+Theorem marshal_roundtrip :
+  forall F s2d l2d d2s leval Fst, oracle_ok F s2d l2d d2s leval Fst ->
+  forall vr g v, unambiguous F Fst v = true -> variant_ok F vr v = true ->
+  exists l, get_data_as_lua F s2d leval vr g (embed F d2s v) = MOk l /\
+            data_eqb (get_lua_as_data F l2d d2s vr l) (embed F d2s v) = true.
+Proof.
+  intros F s2d l2d d2s leval Fst H vr g v U V.
+  destruct (marshal_roundtrip_core F s2d l2d d2s leval Fst H vr g v U V) as (l & A & _ & C).
+  exists l. split; [exact A|]. rewrite C. apply data_eqb_refl.
+Qed.
+Print Assumptions marshal_roundtrip.
+
+(* ... for the repaired code without any restriction *)
+Theorem marshal_roundtrip_fixed :
+  forall F s2d l2d d2s leval Fst, oracle_ok F s2d l2d d2s leval Fst ->
+  forall g v, unambiguous F Fst v = true ->
+  exists l, get_data_as_lua F s2d leval lm_fixed g (embed F d2s v) = MOk l /\
+            get_lua_as_data F l2d d2s lm_fixed l = embed F d2s v.
+Proof.
+  intros F s2d l2d d2s leval Fst H g v U.
+  destruct (marshal_roundtrip_core F s2d l2d d2s leval Fst H lm_fixed g v U (variant_ok_fixed F v)) as (l & A & _ & C).
+  exists l. split; assumption.
+Qed.
+Print Assumptions marshal_roundtrip_fixed.
+
+(* the statement at full strength is false of the pinned code, once per switch *)
+Theorem marshal_roundtrip_empty_string_refuted :
+  forall F s2d l2d d2s leval Fst vr g, lm_empty_atom_is_nil vr = true ->
+  exists v l, unambiguous F Fst v = true /\ get_data_as_lua F s2d leval vr g (embed F d2s v) = MOk l /\
+              get_lua_as_data F l2d d2s vr l <> embed F d2s v.
+Proof. exact empty_string_refuted_lemma. Qed.
+Print Assumptions marshal_roundtrip_empty_string_refuted.
+
+Theorem marshal_roundtrip_long_array_refuted :
+  forall F s2d l2d d2s leval Fst vr g, lm_keys_sorted_as_text vr = true ->
+  exists v l, unambiguous F Fst v = true /\ get_data_as_lua F s2d leval vr g (embed F d2s v) = MOk l /\
+              get_lua_as_data F l2d d2s vr l <> embed F d2s v.
+Proof. exact long_array_refuted_lemma. Qed.
+Print Assumptions marshal_roundtrip_long_array_refuted.
+
+(* conditional on the conversion observed on the implementation: (double)(2^53+1) prints as 2^53 *)
+Theorem marshal_roundtrip_big_integer_refuted :
+  forall F s2d l2d d2s leval Fst vr g, lm_int_via_double vr = true ->
+  d2s (l2d (TWO53 + 1)%Z) = dec_of_Z TWO53 ->
+  exists v l, unambiguous F Fst v = true /\ get_data_as_lua F s2d leval vr g (embed F d2s v) = MOk l /\
+              get_lua_as_data F l2d d2s vr l <> embed F d2s v.
+Proof. exact big_integer_refuted_lemma. Qed.
+Print Assumptions marshal_roundtrip_big_integer_refuted.
+
+Theorem marshal_roundtrip_empty_key_refuted :
+  forall F s2d d2s leval Fst vr g, lm_empty_key_undefined vr = true ->
+  exists v, unambiguous F Fst v = true /\ get_data_as_lua F s2d leval vr g (embed F d2s v) = MUndef.
+Proof. exact empty_key_refuted_lemma. Qed.
+Print Assumptions marshal_roundtrip_empty_key_refuted.
+
+(* U: the Lua value a literal of [v] evaluates to (<param expr>, namelist, <assign expr>, <data expr>)
+   is read by getLuaAsData as embed v *)
+Theorem literal_as_data :
+  forall F s2d l2d d2s leval Fst, oracle_ok F s2d l2d d2s leval Fst ->
+  forall vr v, unambiguous F Fst v = true -> variant_ok F vr v = true ->
+  get_lua_as_data F l2d d2s vr (lua_of_value F v) = embed F d2s v.
+Proof.
+  intros F s2d l2d d2s leval Fst H vr v U V.
+  exact (proj1 (LuaMarshalLemmas.literal_as_data F s2d l2d d2s leval Fst H vr v U V)).
+Qed.
+Print Assumptions literal_as_data.
+
+(* U: every way in x every way out of the charts run by the correspondence check, as compositions of
+   getLuaAsData / getDataAsLua / setEvent, yields embed v *)
+Theorem ways_roundtrip :
+  forall F s2d l2d d2s leval Fst, oracle_ok F s2d l2d d2s leval Fst ->
+  forall vr g wi wo lit_text v, unambiguous F Fst v = true -> variant_ok F vr v = true ->
+  literal_denotes F s2d l2d d2s leval vr g lit_text v ->
+  run_ways F s2d l2d d2s leval vr g wi wo lit_text (lua_of_value F v) (embed F d2s v) = MOk (embed F d2s v).
+Proof. intros F s2d l2d d2s leval Fst H. exact (ways_roundtrip_core F s2d l2d d2s leval Fst H). Qed.
+Print Assumptions ways_roundtrip.
+
+(* U: params and namelist entries appear under _event.data, namelist over params over payload *)
+Theorem set_event_merge :
+  (forall d ps nl k,
+     smap_get k (d_comp (merge_event_data d ps nl)) =
+     match last_binding k nl with
+     | Some x => Some x
+     | None => match last_binding k ps with Some x => Some x | None => smap_get k (d_comp d) end
+     end) /\
+  (forall F s2d leval vr g e,
+     event_data_of F s2d leval vr g e =
+     let d := merge_event_data (ev_data e) (ev_params e) (ev_namelist e) in
+     if data_absent vr d then MOk (LNil F) else get_data_as_lua F s2d leval vr g d).
+Proof. split; [exact set_event_merge_lookup|exact event_data_of_spec]. Qed.
+Print Assumptions set_event_merge.
+
+(* the guard list regenerated from LuaDataModel::assign names every system variable *)
 Theorem protected_covers_system_vars :
   lua_guard_first = true /\ forall s, In s system_vars -> is_protected s = true.
 Proof. exact protected_covers_system_vars_lemma. Qed.
 Print Assumptions protected_covers_system_vars.
+
+(* U: assigning to a location that is exactly a system variable raises error.execution and leaves the
+   store as it was -- whatever the Data, the store and the Lua VM *)
+Theorem assign_protected :
+  forall F s2d leval lexec vr s d g, In s system_vars ->
+  dm_assign F s2d leval lexec vr s d g = DmError F g.
+Proof. exact assign_protected_lemma. Qed.
+Print Assumptions assign_protected.
+
+(* <data id="_name">: holds if init() guards before it clears (not the order found in the source) ... *)
+Theorem init_protected_if_guard_first :
+  lua_init_clears_first = false ->
+  forall F s2d leval lexec vr s d g, In s system_vars -> dm_init F s2d leval lexec vr s d g = DmError F g.
+Proof. intros C F s2d leval lexec. exact (init_protected_if_guard_first_lemma F s2d leval lexec C). Qed.
+Print Assumptions init_protected_if_guard_first.
+
+(* ... and is refuted for the order found: the variable is cleared although the error is raised *)
+Theorem init_protected_refuted :
+  lua_init_clears_first = true ->
+  forall F s2d leval lexec vr, exists s d g g',
+    In s system_vars /\ dm_init F s2d leval lexec vr s d g = DmError F g' /\ store_get F s g' <> store_get F s g.
+Proof. intros C F s2d leval lexec. exact (init_protected_refuted_lemma F s2d leval lexec C). Qed.
+Print Assumptions init_protected_refuted.
+
+(* paths below a system variable: with the guard by exact comparison (the source as pinned,
+   lua_guard_prefix = false) they are not protected (premise: Lua stores the field) ... *)
+Theorem assign_below_system_var_refuted :
+  lua_guard_prefix = false ->
+  forall F s2d leval lexec, lua_sets_field F lexec ->
+  forall vr, exists loc d g g',
+    (exists sv fld, In sv system_vars /\ loc = sv ++ c_dot :: fld) /\
+    dm_assign F s2d leval lexec vr loc d g = DmOk F g' /\
+    store_get F s_sv_event g' <> store_get F s_sv_event g.
+Proof. intros P F s2d leval lexec. exact (assign_below_system_var_refuted_lemma F s2d leval lexec P). Qed.
+Print Assumptions assign_below_system_var_refuted.
+
+(* ... nor is the name followed by a blank (premise: Lua ignores the blank) *)
+Theorem assign_padded_system_var_refuted :
+  lua_guard_prefix = false ->
+  forall F s2d leval lexec, lua_ignores_trailing_space F lexec ->
+  forall vr, exists loc d g g',
+    (exists sv, In sv system_vars /\ loc = sv ++ [c_space]) /\
+    dm_assign F s2d leval lexec vr loc d g = DmOk F g' /\
+    store_get F s_sv_name g' <> store_get F s_sv_name g.
+Proof. intros P F s2d leval lexec. exact (assign_padded_system_var_refuted_lemma F s2d leval lexec P). Qed.
+Print Assumptions assign_padded_system_var_refuted.
+
+(* U, for the repaired guard (lua_guard_prefix = true): a system variable followed by any character
+   that cannot continue an identifier ("." "[" ...), or padded with a blank, is refused like the
+   variable itself, whatever the Lua VM would do with the chunk *)
+Theorem assign_below_protected_if_prefix_guard :
+  lua_guard_prefix = true ->
+  forall F s2d leval lexec vr sv c rest d g, In sv system_vars -> is_ident_char c = false -> isspace c = false ->
+  dm_assign F s2d leval lexec vr (sv ++ c :: rest) d g = DmError F g.
+Proof. intros P F s2d leval lexec. exact (assign_below_protected_lemma F s2d leval lexec P). Qed.
+Print Assumptions assign_below_protected_if_prefix_guard.
+
+Theorem assign_padded_protected_if_prefix_guard :
+  lua_guard_prefix = true ->
+  forall F s2d leval lexec vr sv d g, In sv system_vars ->
+  dm_assign F s2d leval lexec vr (sv ++ [c_space]) d g = DmError F g /\
+  dm_assign F s2d leval lexec vr (c_space :: sv) d g = DmError F g.
+Proof. intros P F s2d leval lexec. exact (assign_padded_protected_lemma F s2d leval lexec P). Qed.
+Print Assumptions assign_padded_protected_if_prefix_guard.
+
+(* U: an ordinary variable holds, after assign, a Lua value that evalAsData reads back as embed v *)
+Theorem assign_then_read :
+  forall F s2d l2d d2s leval lexec Fst, oracle_ok F s2d l2d d2s leval Fst -> lua_sets_global F lexec ->
+  forall vr g x v, is_ident x = true -> is_protected x = false ->
+  unambiguous F Fst v = true -> variant_ok F vr v = true ->
+  exists g', dm_assign F s2d leval lexec vr x (embed F d2s v) g = DmOk F g' /\
+             get_lua_as_data F l2d d2s vr (store_get F x g') = embed F d2s v.
+Proof.
+  intros F s2d l2d d2s leval lexec Fst H L.
+  exact (assign_then_read_lemma F s2d l2d d2s leval lexec Fst H L).
+Qed.
+Print Assumptions assign_then_read.
+
+(* U: the same through init(), the way of <data id=... expr=...> *)
+Theorem init_then_read :
+  forall F s2d l2d d2s leval lexec Fst, oracle_ok F s2d l2d d2s leval Fst -> lua_sets_global F lexec ->
+  forall vr g x v, is_ident x = true -> is_protected x = false ->
+  unambiguous F Fst v = true -> variant_ok F vr v = true ->
+  exists g', dm_init F s2d leval lexec vr x (embed F d2s v) g = DmOk F g' /\
+             get_lua_as_data F l2d d2s vr (store_get F x g') = embed F d2s v.
+Proof.
+  intros F s2d l2d d2s leval lexec Fst H L.
+  exact (init_then_read_lemma F s2d l2d d2s leval lexec Fst H L).
+Qed.
+Print Assumptions init_then_read.
+
+(* the premise literal_denotes of ways_roundtrip follows, for a literal whose text is not made of
+   numeral characters, from "the Lua VM evaluates the text to the value it was rendered from", and
+   holds outright for the decimal text of an integer *)
+Theorem literal_denotes_sufficient :
+  forall F s2d l2d d2s leval Fst, oracle_ok F s2d l2d d2s leval Fst ->
+  (forall vr g lit_text v, unambiguous F Fst v = true -> variant_ok F vr v = true ->
+     lit_text <> [] -> is_numeric lit_text = false -> leval g lit_text = Some [lua_of_value F v] ->
+     literal_denotes F s2d l2d d2s leval vr g lit_text v) /\
+  (forall vr g z, unambiguous F Fst (VNum F (NInt F z)) = true -> variant_ok F vr (VNum F (NInt F z)) = true ->
+     literal_denotes F s2d l2d d2s leval vr g (dec_of_Z z) (VNum F (NInt F z))).
+Proof.
+  intros F s2d l2d d2s leval Fst H. split.
+  - exact (literal_denotes_by_eval F s2d l2d d2s leval Fst H).
+  - exact (literal_denotes_integer F s2d l2d d2s leval Fst H).
+Qed.
+Print Assumptions literal_denotes_sufficient.
+
+(* the oracle of the correspondence check decides equality of Data *)
+Theorem data_eqb_decides : forall a b, data_eqb a b = true <-> a = b.
+Proof. exact data_eqb_eq. Qed.
+Print Assumptions data_eqb_decides.
+
+(* the hypotheses are satisfiable, and a nested value with number-like strings is in the class *)
+Theorem oracle_hypotheses_satisfiable : oracle_ok Z str_to_long (fun z => z) dec_of_Z toy_eval in_long.
+Proof. exact toy_oracle_ok. Qed.
+Print Assumptions oracle_hypotheses_satisfiable.
+
+Theorem example_unambiguous :
+  (forall F Fst, unambiguous F Fst (example_value F) = true) /\
+  exists l, get_data_as_lua Z str_to_long toy_eval lm_fixed [] (embed Z dec_of_Z (example_value Z)) = MOk l /\
+            get_lua_as_data Z (fun z => z) dec_of_Z lm_fixed l = embed Z dec_of_Z (example_value Z).
+Proof.
+  split; [exact example_value_unambiguous|].
+  exact (marshal_roundtrip_fixed Z str_to_long (fun z => z) dec_of_Z toy_eval in_long toy_oracle_ok []
+           (example_value Z) (example_value_unambiguous Z in_long)).
+Qed.
+Print Assumptions example_unambiguous.
